@@ -212,8 +212,12 @@ func c14(rc *corepkg) {
 			case 1: // re-registration of an existing id (same or new address, new labels)
 				// what a restarting TiKV sends: its identity, address, labels and version - never a state or a destroyed flag
 				meta := &metapb.Store{Id: id, Address: pick.GetAddress(), Version: pick.GetVersion(), StatusAddress: pick.GetMeta().GetStatusAddress()}
-				if s.Choose(3, "st.newaddr") == 0 {
+				switch s.Choose(5, "st.newaddr") {
+				case 0:
 					meta.Address = fmt.Sprintf("tikv%d-b:20160", id)
+				case 1:
+					// ... or it comes back on the address another store is using (must be refused unless that one is gone)
+					meta.Address = stores[s.Choose(len(stores), "st.otheraddr")].GetAddress()
 				}
 				meta.Labels = []*metapb.StoreLabel{{Key: "zone", Value: fmt.Sprintf("z%d", s.Choose(3, "st.zone"))}}
 				name = fmt.Sprintf("PutStore again %d at %s", id, meta.Address)
